@@ -17,6 +17,10 @@ CLAIMED = {
    technique="vocabulary and dispatch-table agreement between parser, matchers and printers on the AST with go/types constants + specificity constants vs the Selectors-4 table + case-folding provenance and i-flag plumbing on SSA + empty-value scenario reachability + escaping of quoted interpolations + division guards",
    text="Decides necessary conditions of selector matching/weighing: no parser output can reach a panicking default of a Match dispatcher; specificity constants and the max rule of :is/:not/:has are those of Selectors 4; combinators, attribute operators and structural pseudo-class names dispatch to the specified relation with the specified (a,b,last,ofType); names are ASCII-lowercased and the i flag reaches every comparison; substring/word operators cannot match with an empty value; printed selectors escape quoted values and use names the parser accepts. The matching algorithms themselves (sibling walks, an+b arithmetic, :empty, :lang) are not decided.",
    ref="4 C05"),
+ "C07": dict(
+   technique="bounds/guard analysis over SSA (length by construction, path-condition reachability under len==n scenarios, inferred parameter preconditions checked at static and dynamic call sites, per-function tables of relational invariants) + hazard inventory (explicit panics, unchecked assertions, integer divisions) over the functions statically reachable from the parse entry points + dispatch-table totality",
+   text="Decides necessary conditions of crash-freedom of the parsers of document text: every fixed-position read of a variable-length value is length-guarded (or is a counted, reasoned site), no explicit panic or unchecked assertion is reachable outside a reasoned table, no zero divisor, dispatch tables are total and validators/expanders are entered with tokens. Variable indices in general (444 sites counted in the evidence), nil dereferences, stack depth and termination are not decided.",
+   ref="4 C07"),
  "C08": dict(
    technique="case-insensitivity taint over SSA (sources: identifier/unit/function-name/declaration-name fields; sanitisers: ASCII lowercasing; sinks: comparisons, prefix tests and table lookups against lettered constants; return summaries to a fixpoint) + shorthand table bijection and expander/longhand agreement on the AST + path-condition reachability under err != nil in the declaration loop + provenance of validated tokens + visited-set recursion guard",
    text="Decides necessary conditions of spelling-independence and of dropping bad declarations alone: no raw case-insensitive text reaches a lettered comparison or lookup; the shorthand tables are complete and inverse and expanders only emit declared longhands; a validation error only skips its own declaration; validators see whitespace-free tokens; var() resolution cannot recurse forever on a cycle. That each expander assigns the right tokens to the right longhand, reset-to-initial of omitted parts and var() substitution semantics are not decided.",
